@@ -651,6 +651,8 @@ class Message:
                 self.tsig.add(new_tsig)
                 if multi:
                     self.tsig_ctx = ctx
+            # The TSIG reserve (and hence the padding) assumes an uncompressed owner name.
+            r.compress = {}
             r.add_rrset(dns.renderer.ADDITIONAL, self.tsig)
             r.write_header()
         wire = r.get_wire()
